@@ -75,6 +75,7 @@ Inductive op :=
 | Mutate (i n x : Z)                               (* getattr(obj_i, n), then append / set / add x in place *)
 | Register (i n hid : Z) (via_observe : bool)      (* obj_i.on_trait_change(h, n) / obj_i.observe(h, n) *)
 | AddTrait (i n : Z) (t : tdef)                    (* obj_i.add_trait(n, Int(c)) / List(Int, [..]) *)
+| Introspect (i mode : Z)                          (* obj_i.copyable_trait_names() / traits(k=v) / trait_names(k=v) / traits() *)
 | NewInst (c : Z).                                 (* a new instance of class c *)
 
 (* ---- association lists in insertion order ---- *)
@@ -314,12 +315,13 @@ Section Step.
              (match old with Some _ => its1 | None => fire its1 end)
              (i_calls ins) (i_log ins) (i_regs ins),
          mkV 0 [], next')
+    | Introspect _ _ => (ins, mkV 0 [], w_next w)      (* HasTraits.traits with metadata works on copies *)
     | NewInst _ => (ins, error_value, w_next w)
     end.
 
   Definition target (o : op) : Z :=
     match o with
-    | Read i _ | Assign i _ _ _ | Mutate i _ _ | Register i _ _ _ | AddTrait i _ _ => i
+    | Read i _ | Assign i _ _ _ | Mutate i _ _ | Register i _ _ _ | AddTrait i _ _ | Introspect i _ => i
     | NewInst _ => Z.of_nat (length (w_insts w))
     end.
 
